@@ -22,8 +22,8 @@ def main(run):
     # bounded / replay layer: the real function, real files, every crash point
     from rt import crash
     rows_ = []
-    for earlier in ((0, 1, 3) if run.tier == "quick" else (0, 1, 2, 3, 5)):
-        for rows, cols in shapes[:3] if run.tier == "quick" else shapes:
+    for earlier in ((0, 2) if run.tier == "quick" else (0, 1, 2, 3, 5)):
+        for rows, cols in [(1, 1), (4, 3)] if run.tier == "quick" else shapes + [(60, 40)]:
             bad = crash.crash_sweep(earlier, rows, cols)
             run.native_evals += 1
             run.native_distinct.add(("crash", earlier, rows, cols))
@@ -33,7 +33,7 @@ def main(run):
                                       {"file_exists": earlier > 0, "rows": rows, "cols": cols}, {"earlier": earlier}, True,
                                       detail={"layer": "fault-injection on the real function", "witnesses": bad[:3]})
     run.bounded.append({"label": "crash injection on the real save_json (every write/close/replace call fails once)", "rows": rows_,
-                        "bound": "file histories with 0..3 (5) earlier runs x result shapes; byte comparison with old/new file"})
+                        "bound": "hard kill (fork + os._exit, with and without flushing user-space buffers) at every effect point; file histories with 0/2 (0..5) earlier runs x result shapes incl. one larger than the 8 KiB write buffer (thorough); byte comparison with old/new file"})
     return run.finish(
         explanation="The real save_json executed over an abstract file system with an effect trace, for an ARBITRARY earlier mapping "
                     "(membership of the saved name symbolic): after every prefix of the trace the results file is exactly the old "
